@@ -29,7 +29,7 @@ RULE = ("cases: package configurations; executions: one plot() call per (n selec
         "(configuration, n selected, mode, form) with more than one curve or more than one selected fit")
 ASSUMPTIONS = ["results come from cube packages fitted at tabulated wavelengths", "tolerance 2e-3 for the rounded physical constants"]
 REQUIRED_CLASSES = ['mode-interp', 'mode-largest', 'mode-largest+smallest', 'mode-all', 'multi-aperture', 'single-aperture', 'mixed-theta', 'form-object', 'form-file', 'five-fits',
-                    'distance-dependent', 'distance-independent', 'cube-wav-ascending', 'several-sources-one-call', 'apertures-stored-decreasing', 'cube-in-Jy', 'second-package-same-names']
+                    'distance-dependent', 'distance-independent', 'cube-wav-ascending', 'several-sources-one-call', 'apertures-stored-decreasing', 'cube-in-Jy', 'second-package-same-names', 'same-call-twice']
 TIMEOUT = {'quick': 600, 'thorough': 3000}
 
 AXES = {'n_ap': [3, 1], 'sord': ['wav-desc', 'wav-asc'], 'theta': ['mixed', 'uniform'], 'memmap': [True, False], 'avr': [(0.0, 5.0), (2.0, 2.0)], 'ap_order': ['inc', 'dec'], 'funit': ['mJy', 'Jy']}
@@ -130,6 +130,18 @@ def run_case(ctx, case, rec, d):
                     continue
                 rec.trans()
                 rec.trace()
+                if form == 'object' and nsel == 3:
+                    # the very same call once more on the same result object: the same curves
+                    try:
+                        figs_b = plot(arg, output_dir=None, select_format=('N', nsel), sed_type=mode, memmap=case['memmap'])
+                        segs_b = [np.asarray(sg) for sg in figs_b['src']['lines'].get_segments()]
+                        rec.trans()
+                        rec.cls('same-call-twice')
+                        if len(segs_b) != len(segs) or not all(np.allclose(a_, b_, rtol=1e-12, atol=0) for a_, b_ in zip(segs, segs_b)):
+                            rec.violation('plot|%s|second-call-differs' % mode, sub, {'problem': 'plotting the same result twice gives different curves'})
+                    except Exception as e:
+                        from mc.runner import exc_signature
+                        rec.violation('plot|%s|second-call|%s' % (mode, exc_signature(e)), sub, {'type': type(e).__name__, 'msg': str(e)[:300]})
                 if n_ap == 1:
                     ncur = 1 if mode in ('interp', 'largest') else (2 if mode == 'largest+smallest' else len(uap))
                 else:
